@@ -620,6 +620,24 @@ def evaluate_case(sc, c, mres, variant):
                     j = jj
                     break
             break
+    if j is None and log2.gstates and log2.gstates[0][1] > 0:
+        # the stand-alone reader rejected both files, yet the restart began with loaded points: it accepted a torn file (the readers
+        # use uninitialised values after a short read, so the outcome can differ from one process to the next)
+        for nm in ("cur", "old"):
+            b = c[nm]
+            if b is None:
+                continue
+            for jj in range(len(sc.table_bytes) - 1, -1, -1):
+                tb = sc.table_bytes[jj]
+                if tb is not None and tb[:len(b)] == b and len(b) < len(tb) and sc.numloaded[jj] is not None and \
+                        log2.gstates[0][1] in (sc.numloaded[jj], sc.numtotal[jj]):
+                    j = jj
+                    section = "grid" if len(b) < sc.gridlens[jj] else "CompleteStorage"
+                    out.append((K_ACCEPT + section, "the restart continued from the torn file %s (%d of %d bytes of checkpoint %d) although the "
+                                "stand-alone reader rejected it" % (nm, len(b), len(tb), jj - sc.base)))
+                    break
+            if j is not None:
+                break
     if j is None and not any(c[nm] is not None and c["rc_" + nm]["status"] == "ok" for nm in ("cur", "old")):
         held = 0                                 # nothing recovered: the run starts over
     if j is not None:
@@ -630,8 +648,10 @@ def evaluate_case(sc, c, mres, variant):
     over = max(rs["numloaded"] - budget, (held + len(redo) - budget) if held is not None else 0)
     if j is not None and log2.gstates and j < len(sc.numloaded) and log2.gstates[0][1] not in (sc.numloaded[j], sc.numtotal[j]):
         parked = 0          # the restart did not begin with the state inferred from the files: nothing is explained by parked samples
+    # a restarted process that already overshoots because of the parked samples of ITS start state hands the excess on
+    inherited = getattr(sc, "ref_over_parked", 0)
     if over > 0:
-        out.append((K_PARKED if over <= parked else "budget-exceeded",
+        out.append((K_PARKED if over <= parked + inherited else "budget-exceeded",
                     "budget %d exceeded by %d: the recovered checkpoint holds %s computed samples (%d of them parked inside the grid, not "
                     "counted by getNumLoaded()+getNumStored()), the restart computed %d more, the final grid has %d points"
                     % (budget, over, held, parked, len(redo), rs["numloaded"])))
@@ -715,7 +735,7 @@ def run(res, tier, seed, only=None, only_cfg=None):
     for sc in scenarios:
         if sc.ncalls < 4:
             continue
-        ms = [2] if tier == "quick" else sorted(set([1, 2, sc.ncalls // 2]))
+        ms = [2] if tier == "quick" else sorted(set([1, 2, sc.ncalls // 2, max(sc.ncalls - 2, 1)]))
         if sc.light:
             ms = []
         ms = sorted(set(ms) | set(m for m in extra_restart.get(tuple(sc.cfg), ()) if m < sc.ncalls))
@@ -738,7 +758,7 @@ def run(res, tier, seed, only=None, only_cfg=None):
             elif m >= 1 and read_bytes(st[1]) == sc.table_bytes[m - 1] and readcheck(ctx, st[1])["status"] == "ok":
                 prior = [x for call in rr["log"].calls[:m - 1] for x in call]
             sc2 = Scenario(ctx, sc.name + "-restart%d" % m, sc.cfg, start=st, prior_samples=prior,
-                           max_phase=(3 if tier == "quick" else 6), prior_tables=[sc.table[m - 1]] if m >= 1 else [])
+                           max_phase=(3 if tier == "quick" else 12), prior_tables=[sc.table[m - 1]] if m >= 1 else [])
             sc2.light = sc.light
             sc2.reference()
             sc2.parent_m = m
@@ -829,6 +849,8 @@ def run(res, tier, seed, only=None, only_cfg=None):
             if sc.start is not None and sc.base < len(sc.numtotal) and sc.numtotal[sc.base] is not None:
                 parked = max(len(sc.prior) - sc.numtotal[sc.base], 0)
             key = K_PARKED if over <= parked else "budget-exceeded"
+            if key == K_PARKED:
+                sc.ref_over_parked = over
             rep2 = dict(rep, script=["surrdrv run %s %d %d %d <ck>, killed before the first file operation of checkpoint %d" % (tuple(sc.cfg) + (getattr(sc, "parent_m", 0) + 1,)),
                                      "surrdrv run (same arguments)"])
             if res.violation(key, "unkilled restart %s: %d samples computed in total, final grid %d points, budget %d (the recovered checkpoint held %d samples, "
